@@ -72,6 +72,7 @@ type iterState struct {
 	MT    *types.Map
 	V     string // visited-set term (Array K Bool)
 	Dom0  string // domain snapshot at range creation
+	Vals0 string // values snapshot at range creation (when folds apply)
 	Str   *Val // range over string (unsupported -> havoc)
 }
 
@@ -94,6 +95,7 @@ type State struct {
 	pendingHavoc []string
 	Shared []string
 	Entry  map[int]*entrySnap
+	LoopHeap map[*ssa.BasicBlock]map[string]string // heap snapshot at the entry of each loop (loopentry())
 	// Private: refs of struct objects allocated here whose address provably never escapes this body.
 	Private map[string]bool
 }
@@ -113,6 +115,7 @@ func (s *State) clone() *State {
 		PathID: s.PathID,
 		Shared: s.Shared,
 		Private: s.Private,
+		LoopHeap: s.LoopHeap,
 		Entry:  s.Entry,
 		Epoch:  s.Epoch,
 		pendingHavoc: s.pendingHavoc[:len(s.pendingHavoc):len(s.pendingHavoc)],
